@@ -119,6 +119,47 @@ def layouts():
     return out
 
 
+# function kinds: name -> (definition text with %(n)s, call expression giving an int for argument 3, expected value,
+#                          skipped: nanoc does not run shadow blocks of functions that call extern functions directly)
+KINDS = {
+    "plain":   ("fn %(n)s(a: int) -> int {\n    return (+ a 1)\n}\n", "(%(n)s 3)", 4, False),
+    "strfn":   ("fn %(n)s(a: int) -> int {\n    let s: string = (+ \"ab\" (int_to_string a))\n    return (str_length s)\n}\n", "(%(n)s 3)", 3, False),
+    "arrfn":   ("fn %(n)s(a: int) -> int {\n    let mut v: array<int> = []\n    set v (array_push v a)\n    set v (array_push v 5)\n    return (+ (at v 0) (array_length v))\n}\n", "(%(n)s 3)", 5, False),
+    "hof":     ("fn %(n)s(g: fn(int) -> int, a: int) -> int {\n    return (g (g a))\n}\n", "(%(n)s inc1 3)", 5, False),
+    "fnlocal": ("fn %(n)s(a: int) -> int {\n    let g: fn(int) -> int = inc1\n    return (g a)\n}\n", "(%(n)s 3)", 4, False),
+    "loopfn":  ("fn %(n)s(a: int) -> int {\n    let mut t: int = 0\n    for i in (range 0 a) { set t (+ t i) }\n    return t\n}\n", "(%(n)s 3)", 3, False),
+    "externfn": ("fn %(n)s(a: int) -> int {\n    return (labs (- 0 a))\n}\n", "(%(n)s 3)", 3, True),
+    "externunsafe": ("fn %(n)s(a: int) -> int {\n    let mut r: int = 0\n    unsafe { set r (labs (- 0 a)) }\n    return r\n}\n", "(%(n)s 3)", 3, False),
+    "structfn": ("fn %(n)s(a: int) -> int {\n    let p: PT = PT { x: a, y: 2 }\n    return (+ p.x p.y)\n}\n", "(%(n)s 3)", 5, False),
+}
+KPRE = "extern fn labs(x: int) -> int\nstruct PT { x: int, y: int }\nfn inc1(k: int) -> int { return (+ k 1) }\nshadow inc1 { assert (== (inc1 1) 2) }\n"
+
+
+def kind_layouts():
+    """ordered pairs of function kinds x which shadow block holds a false assertion; and each kind without a block"""
+    names = sorted(KINDS)
+    for k1 in names:
+        for k2 in names:
+            for fails in ((False, False), (True, False), (False, True), (True, True)):
+                src = KPRE
+                ana = {}
+                for i, (k, bad) in enumerate(((k1, fails[0]), (k2, fails[1]))):
+                    n = "q%d%s" % (i, k)
+                    d, call, val, skipped = KINDS[k]
+                    src += d % {"n": n}
+                    src += "shadow %s {\n    assert (== %s %d)\n    assert (== %s %d)\n}\n" % (n, call % {"n": n}, val, call % {"n": n}, val + (1000 if bad else 0))
+                    ana[n] = (0, 0) if skipped else (2, 1 if bad else 0)
+                src += "fn main() -> int {\n    (println \"ran\")\n    return 0\n}\nshadow main { assert true }\n"
+                yield "kinds:%s,%s:%s" % (k1, k2, "".join("F" if b else "T" for b in fails)), src, ana
+    for k in names:
+        if KINDS[k][3]:
+            continue          # a missing shadow block is optional for functions that call extern functions
+        n = "m" + k
+        src = KPRE + KINDS[k][0] % {"n": n} + "fn other(a: int) -> int {\n    return a\n}\nshadow other { assert (== (other 1) 1) }\n"
+        src += "fn main() -> int {\n    (println \"ran\")\n    return 0\n}\nshadow main { assert true }\n"
+        yield "kind-missing:" + k, src, {n: None, "other": (1, 0)}
+
+
 def _task(args):
     root, work, envx, idx, label, src, extra_files = args
     d = os.path.join(work, "p%d" % idx)
@@ -154,6 +195,10 @@ def run(tier):
         mod = "pub fn mf(a: int) -> int {\n    return (+ a 1)\n}\nshadow mf {\n%s}\n" % body
         main = 'from "m.nano" import mf\nfn main() -> int {\n    (println (mf 1))\n    return 0\n}\nshadow main { assert true }\n'
         items.append(("module:" + kind, [("mf", "x")], None, {"mf": (1, 0 if kind == "pass" else 1)}, main, [("m.nano", mod)]))
+    # --- function kinds x order x which block fails (text programs): a block that nanoc skips or treats specially
+    #     must not change the fate of the blocks around it
+    for label, src, ana in kind_layouts():
+        items.append((label, [], None, ana, src, []))
     jobs = [(tree.root, work, lang.envx, i, it[0], it[4], it[5]) for i, it in enumerate(items)]
     outcomes = set()
     findings = dict((f["id"], f) for f in common.load_findings("C06"))
